@@ -77,6 +77,12 @@ func Apply(doc, query, update bsonkit.Doc, upsert bool, arrayFilters bsonkit.Lis
 		return nil, fmt.Errorf("empty update document")
 	}
 
+	// check conflicts
+	err := checkConflicts(*update)
+	if err != nil {
+		return nil, err
+	}
+
 	// prepare changes
 	changes := &Changes{
 		Upsert:   upsert,
@@ -85,7 +91,7 @@ func Apply(doc, query, update bsonkit.Doc, upsert bool, arrayFilters bsonkit.Lis
 	}
 
 	// update document according to update
-	err := Process(Context{
+	err = Process(Context{
 		Value:                changes,
 		TopLevel:             FieldUpdateOperators,
 		MultiTopLevel:        true,
@@ -101,6 +107,48 @@ func Apply(doc, query, update bsonkit.Doc, upsert bool, arrayFilters bsonkit.Lis
 	changes.pathTree = nil
 
 	return changes, nil
+}
+
+// checkConflicts will return an error if two paths of the update are equal or
+// one is a prefix of the other. The check considers all paths up front as
+// operators that turn out to be no-ops (e.g. unsetting a missing field) do not
+// record a change and would otherwise hide the conflict.
+func checkConflicts(update bson.D) error {
+	// prepare tree
+	tree := bsonkit.NewPathNode()
+	defer tree.Recycle()
+
+	// prepare function
+	add := func(path string) error {
+		node, rest := tree.Lookup(path)
+		if node.Load() == true || rest == bsonkit.PathEnd {
+			return fmt.Errorf("conflicting key %q", path)
+		}
+		tree.Append(path).Store(true)
+		return nil
+	}
+
+	// add all paths
+	for _, op := range update {
+		args, ok := op.Value.(bson.D)
+		if !ok {
+			continue
+		}
+		for _, arg := range args {
+			err := add(arg.Key)
+			if err != nil {
+				return err
+			}
+			if target, ok := arg.Value.(string); ok && op.Key == "$rename" && target != arg.Key {
+				err = add(target)
+				if err != nil {
+					return err
+				}
+			}
+		}
+	}
+
+	return nil
 }
 
 func applySet(ctx Context, doc bsonkit.Doc, _, path string, v interface{}) error {
